@@ -49,6 +49,8 @@ def _q_stretch_flags(p, rows):
     ensures(forall(0, len(rows), lambda i: rows[i][2] == 0 or rows[i][2] == 1))
     # Loaded(db): a stretch is a contiguous piece of the uniform time grid
     ensures(forall(0, len(rows) - 1, lambda i: rows[i + 1][0] - rows[i][0] == rows[1][0] - rows[0][0]))
+    # every returned sample carries the requested label (label_of: grid_time.data_interval as a function of epoch)
+    ensures(forall(0, len(rows), lambda i: uf_int("label_of", rows[i][0]) == p[0]))
 
 
 @sql("""SELECT water_level.epoch, zeta_mm, rainfall_intensity_mm_h
@@ -59,6 +61,7 @@ def _q_stretch_rain(p, rows):
     ensures(len(rows) >= 1)
     ensures(forall(0, len(rows), lambda j: forall(0, j, lambda i: rows[i][0] < rows[j][0])))
     ensures(forall(0, len(rows) - 1, lambda i: rows[i + 1][0] - rows[i][0] == rows[1][0] - rows[0][0]))
+    ensures(forall(0, len(rows), lambda i: uf_int("label_of", rows[i][0]) == p[0]))
 
 
 @sql("""INSERT INTO grid_time_flags (start_epoch, is_jump, is_mystery_jump, is_interstorm) VALUES (?, ?, ?, ?)""",
